@@ -32,7 +32,7 @@ ASSUMPTIONS = [
 ]
 SHARDS = {"quick": 16, "thorough": 16}
 TIMEOUT = {"quick": 900, "thorough": 7200}
-MIN_CASES = {"quick": 1200, "thorough": 20000}
+MIN_CASES = {"quick": 1200, "thorough": 15000}
 REQUIRED_COUNTERS = ["honest_accepted", "accessory_accepted_m3", "accessory_accepted_m5", "adversarial_rejected", "m4_proof_flips", "m6_cipher_flips", "directed_leading_zero_K", "directed_leading_zero_S", "directed_leading_zero_A", "directed_leading_zero_M2"]
 
 
@@ -255,9 +255,9 @@ def mutation(name, arg, rng):
 def adversarial_plan(ctx):
     """(name, arg) list; ~ one fresh SRP exchange each."""
     plan = []
-    for k in range(ctx.pick(2, 6)):
+    for k in range(ctx.pick(2, 10)):
         plan += [(f"M4:flip_proof", bit, k) for bit in range(512)]
-    n_m6 = ctx.pick(4, 20)
+    n_m6 = ctx.pick(4, 40)
     for k in range(n_m6):
         if ctx.quick:
             bits = [8 * i + ((i + k) % 8) for i in range(140)] + list(range(0, 1120, 29))
